@@ -10,7 +10,7 @@ Items (JSON-able):
         `again`: one more IN after a STALL; `mid`: [[pos, item], ..] other-endpoint items inserted after transaction
         pos (mod the number of gaps) of the transfer.
   {"k":"in","ep":E,"ack":a}  {"k":"out","ep":E,"n":len,"flip":f}  {"k":"ping","ep":E}  {"k":"sof"}
-  {"k":"feed","ep":E,"n":len,"last":l}  {"k":"sig","v":V}  {"k":"idle","n":N}  {"k":"reset","n":N}
+  {"k":"xin","ep":E,"n":len,"ack":a}  (feed + wait + IN)   {"k":"feed","ep":E,"n":len,"last":l}  {"k":"sig","v":V}  {"k":"idle","n":N}  {"k":"reset","n":N}
   {"k":"probe","addr":A|"dev","ack":a}      IN to the status endpoint at an explicit address
 """
 from hypothesis import strategies as st
@@ -109,6 +109,11 @@ class Builder:
             self.add(dict(op="in", ep=it["ep"], ack=it.get("ack", 1), x=inside))
         elif k == "out":
             self.add(dict(op="out", ep=it["ep"], data=self._bytes(it["n"]), flip=it.get("flip", 0), x=inside))
+        elif k == "xin":
+            # a complete IN transfer of n bytes: feed, give the endpoint time to take it, fetch the first packet
+            self.add(dict(op="feed", ep=it["ep"], data=self._bytes(it["n"]), last=1))
+            self.add(dict(op="idle", n=it["n"] + 6))
+            self.add(dict(op="in", ep=it["ep"], ack=it.get("ack", 1), x=inside))
         elif k == "ping":
             self.add(dict(op="ping", ep=it["ep"], x=inside))
         elif k == "sof":
@@ -263,7 +268,7 @@ def pending_request_facts(run, prog):
                 abandoned_before = True
             open_transfer = t
             info = M.classify_request(tuple(t["req"]), {}, False)
-            pending = (t["req"][0] & 0x60) == 0 and t["req"][1] in (1, 5, 9)
+            pending = info["kind"] == "nodata"
         elif t["ep"] == 0:
             if t is run.txns[-1] and run.violation is not None:
                 break
